@@ -232,7 +232,9 @@ class Check:
                 'source_digest': self.prog.digest(s for s in shorts if s in self.prog.modules),
                 'exhaustive': True,
             },
-            'assumptions': self.assumptions + [
+            'assumptions': self.assumptions + ([
+                'private names renamed back before analysis (alpha.py; current -> name the checkers use): '
+                + ', '.join(f'{a} -> {b}' for a, b in sorted(self.prog.alpha_map.items()))] if getattr(self.prog, 'alpha_map', None) else []) + [
                 'CPython ast parse of the files is the program that runs; nobody monkey-patches plumpy at run time',
                 'asyncio runs callbacks one at a time on one thread (atomic-region lemma, DESIGN section 0)',
             ],
